@@ -11,9 +11,12 @@ Theorem C01_para_core : forall S C ps, forallb (session_prim S C) ps = true ->
 Proof. exact C01Core.C01_para_core. Qed.
 Print Assumptions C01_para_core.
 
-(* the engine, whole batch, EVERY document / batch / matcher answer (edits with inline new text; the model reports Outside
-   for block insertions and edits inside pending insertions and stops there): with S = "revision id above the pre-session
-   maximum" and C = "comment id not below the pre-session next id",
+(* the engine, whole batch, EVERY document / batch / matcher answer - inline new text AND block insertions (new text with
+   line breaks / heading lines, which creates paragraphs); the model reports Outside for edits inside pending insertions and
+   stops there. With S = "revision id above the pre-session maximum", C = "comment id not below the pre-session next id" and
+   the paragraphs created by the session (identity not below the pre-session next identity) dropped - they hold nothing but
+   the session's insertions (NewDead) -, for every document whose paragraph identities lie below its next identity (wf_ids,
+   what the reader guarantees):
    - every paragraph of the result, with the session rejected, has exactly the tape of the normalised input paragraph:
      same characters, per-character formatting, earlier authors' marks, comment anchors, non-text content, same order;
      paragraph ids, paragraph properties and styles are the same (ptape);
@@ -23,9 +26,16 @@ Print Assumptions C01_para_core.
 Theorem C01_engine_reversible : forall d author ts edits orc,
   let nd := normalize_doc d in
   let '(d', ap, sk, out) := apply_edits d author ts edits orc in
-  Rel (scan_ids nd) (next_comment_id nd) nd d' /\ (out = 0 -> ap + sk = length edits).
-Proof. exact engine_rel. Qed.
+  (wf_ids nd -> RelG (scan_ids nd) (next_comment_id nd) (d_next_uid nd) nd d') /\ (out = 0 -> ap + sk = length edits).
+Proof. exact engine_contract. Qed.
 Print Assumptions C01_engine_reversible.
+(* and when the result holds no paragraph of the session, the plain relation: the same paragraphs, one for one *)
+Theorem C01_no_new_paragraph_exact : forall d author ts edits orc,
+  let nd := normalize_doc d in
+  let '(d', _, _, _) := apply_edits d author ts edits orc in
+  wf_ids nd -> Forall (fun p => p_id p < d_next_uid nd) (doc_paras d') -> Rel (scan_ids nd) (next_comment_id nd) nd d'.
+Proof. exact engine_plain. Qed.
+Print Assumptions C01_no_new_paragraph_exact.
 
 (* and the normalised input itself contains no session mark: rejecting the session leaves it as it is *)
 Theorem C01_input_has_no_session_marks : forall d p n, In p (doc_paras d) -> In n (p_nodes p) ->
